@@ -381,11 +381,7 @@ Proof. destruct a, b; simpl; congruence. Qed.
 
 Lemma rlev_le_eff m t : rlev m t <= eff m t.
 Proof.
-  destruct t; simpl; try lia.
-  - apply rightmax_le.
-  - apply opmax_le.
-  - destruct m; lia.
-  - destruct m; lia.
+  destruct t; simpl; try lia; try apply rightmax_le; try apply opmax_le; destruct m; lia.
 Qed.
 
 (* ------------------------------------------------------------------ induction principle *)
@@ -457,6 +453,9 @@ Proof.
   - destruct m; lia.
 Qed.
 
+Lemma args_toks_cons x l : args_toks (x :: l) = TComma :: tk MIn x ++ args_toks l.
+Proof. reflexivity. Qed.
+
 Lemma reads_args l :
   Forall main_P l ->
   forallb (fun a => ok MIn a && (eff MIn a <=? 999)) l = true ->
@@ -466,7 +465,7 @@ Proof.
   induction 1 as [|x l Hx Hl IH]; intros Hok rest k Hk.
   - simpl. destruct k as [|k]; [lia|]. apply args_close.
   - simpl in Hok. btrue.
-    unfold args_toks in *. simpl flat_map. simpl app.
+    rewrite args_toks_cons in *. simpl app.
     rewrite cost_cons, cost_app in Hk.
     destruct k as [|k]; [lia|]. rewrite args_comma.
     rewrite <- app_assoc.
@@ -485,9 +484,29 @@ Qed.
 
 Lemma lt_toks_stop u rest : arg_stop (lt_toks u ++ TRBrack :: rest).
 Proof.
-  destruct u; simpl; try exact I.
-  destruct (is_nil (App f args)); simpl; exact I.
+  destruct u; cbn [lt_toks]; try (destruct (is_nil _)); simpl; exact I.
 Qed.
+
+Lemma tail_generic t :
+  main_P t -> (forall x y, t <> Cons x y) -> is_nil t = false -> tail_Q t.
+Proof.
+  intros M Hnc Hnil Hok rest k Hk.
+  assert (E1 : lt_toks t = TBar :: tk MIn t).
+  { destruct t; cbn [lt_toks]; try rewrite Hnil; try reflexivity. exfalso. eapply Hnc. reflexivity. }
+  assert (E2 : oktail t = is_nil t || (ok MIn t && (eff MIn t <=? 999))).
+  { destruct t; try reflexivity. exfalso. eapply Hnc. reflexivity. }
+  rewrite E2, Hnil in Hok. simpl orb in Hok. btrue. rewrite E1 in *. rewrite cost_cons in Hk. simpl app.
+  destruct k; [lia|]. rewrite ltail_bar.
+  rewrite (reads_arg (tk MIn t) t (eff MIn t) (rlev MIn t) (TRBrack :: rest) k).
+  - reflexivity.
+  - apply M; auto.
+  - lia.
+  - pose proof (rlev_le_eff MIn t). lia.
+  - exact I.
+  - lia.
+Qed.
+
+Ltac tail_gen M := apply tail_generic; [exact M | intros ? ?; discriminate | reflexivity].
 
 Theorem main_all : forall t, main_P t /\ tail_Q t.
 Proof.
@@ -495,11 +514,8 @@ Proof.
   - (* Var *)
     split.
     + intros m _. apply reads_atom. intros. apply primary_var.
-    + intros _ rest k Hk. simpl lt_toks. simpl app. destruct k; [lia|]. rewrite ltail_bar.
-      rewrite (reads_arg [TVar s] (Var s) 0 0 (TRBrack :: rest)); auto; try lia.
-      * apply reads_atom. intros. apply primary_var.
-      * simpl. exact I.
-      * simpl in *. lia.
+    + apply tail_generic; [|intros ? ?; discriminate|reflexivity].
+      intros m _. apply reads_atom. intros. apply primary_var.
   - (* Int *)
     assert (M : main_P (Int z)).
     { intros m _. unfold tk. simpl. destruct (z <? 0)%Z eqn:E; simpl toks.
@@ -507,18 +523,11 @@ Proof.
         replace (Int z) with (mk_un "-" 200 FY (Int (Z.of_N (Z.to_N (- z))))).
         + apply reads_prefix with (pa := 0) (rla := 0); simpl; try lia; try reflexivity.
           apply reads_atom. intros. apply primary_int.
-        + simpl. f_equal. rewrite Z2N.id; lia.
+        + replace (Z.of_N (Z.to_N (- z))) with (- z)%Z by (rewrite Z2N.id; lia).
+          change (mk_un "-" 200 FY (Int (- z))) with (Int (- - z)). f_equal. lia.
       - apply Z.ltb_ge in E.
-        replace (Int z) with (Int (Z.of_N (Z.to_N z))) at 2 by (f_equal; rewrite Z2N.id; lia).
-        apply reads_atom. intros. apply primary_int. }
-    split; [exact M|].
-    intros Hok rest k Hk. simpl in Hok. simpl lt_toks in *. simpl app.
-    destruct k; [lia|]. rewrite ltail_bar.
-    btrue. rewrite cost_cons in Hk.
-    rewrite <- app_comm_cons || idtac.
-    rewrite (reads_arg (tk MIn (Int z)) (Int z) (eff MIn (Int z)) (rlev MIn (Int z)) (TRBrack :: rest)); auto; try lia.
-    + pose proof (rlev_le_eff MIn (Int z)). lia.
-    + simpl. exact I.
+        apply reads_atom. intros. rewrite primary_int. rewrite Z2N.id by lia. reflexivity. }
+    split; [exact M|]. tail_gen M.
   - (* Flt *)
     assert (M : main_P (Flt n s)).
     { intros m _. unfold tk. simpl. destruct n; simpl toks.
@@ -526,22 +535,14 @@ Proof.
         apply reads_prefix with (pa := 0) (rla := 0); simpl; try lia; try reflexivity.
         apply reads_atom. intros. apply primary_flt.
       - apply reads_atom. intros. apply primary_flt. }
-    split; [exact M|].
-    intros Hok rest k Hk. simpl in Hok. simpl lt_toks in *. simpl app.
-    destruct k; [lia|]. rewrite ltail_bar.
-    btrue. rewrite cost_cons in Hk.
-    rewrite (reads_arg (tk MIn (Flt n s)) (Flt n s) (eff MIn (Flt n s)) (rlev MIn (Flt n s)) (TRBrack :: rest)); auto; try lia.
-    + pose proof (rlev_le_eff MIn (Flt n s)). lia.
-    + simpl. exact I.
+    split; [exact M|]. tail_gen M.
   - (* Str *)
     split.
     + intros m _. apply reads_atom. intros. apply primary_str.
-    + intros _ rest k Hk. simpl lt_toks. simpl app. destruct k; [lia|]. rewrite ltail_bar.
-      rewrite (reads_arg [TStr s] (Str s) 0 0 (TRBrack :: rest)); auto; try lia.
-      * apply reads_atom. intros. apply primary_str.
-      * simpl. exact I.
-      * simpl in *. lia.
+    + apply tail_generic; [|intros ? ?; discriminate|reflexivity].
+      intros m _. apply reads_atom. intros. apply primary_str.
   - (* App *)
+    rename H into IHl.
     assert (M : main_P (App f l)).
     { intros m Hok. destruct l as [|a l].
       - simpl in Hok. unfold tk. simpl.
@@ -559,7 +560,8 @@ Proof.
         { simpl in Hok. simpl. btrue. split; [assumption|]. apply andb_true_iff. split; [|assumption].
           apply andb_true_iff. split; [assumption|]. apply Nat.leb_le. assumption. }
         destruct Hok' as [Hc Hall]. rewrite Hc.
-        inversion H as [|? ? Ha Hl]; subst.
+        inversion IHl as [|? ? Ha Hl]; subst. destruct Ha as [Ha _].
+        assert (Hl' : Forall main_P l) by (eapply Forall_impl; [|exact Hl]; intros ? [? _]; assumption).
         simpl in Hall. btrue.
         intros maxp rest K r _ _ HK Hinf k Hk.
         rewrite !cost_cons, !cost_app, cost_cons, cost_nil in Hk.
@@ -572,14 +574,10 @@ Proof.
         + pose proof (rlev_le_eff MIn a). lia.
         + destruct l; simpl; exact I. }
     split; [exact M|].
-    intros Hok rest k Hk. simpl oktail in Hok.
     destruct (is_nil (App f l)) eqn:En.
-    + apply is_nil_eq in En. inversion En; subst. simpl. destruct k; [lia|]. apply ltail_close.
-    + simpl in Hok. btrue. simpl lt_toks in *. rewrite En in *. simpl app.
-      destruct k; [lia|]. rewrite ltail_bar. rewrite cost_cons in Hk.
-      rewrite (reads_arg (tk MIn (App f l)) (App f l) 0 0 (TRBrack :: rest)); auto; try lia.
-      * apply (M MIn); auto.
-      * simpl. exact I.
+    + intros Hok rest k Hk. apply is_nil_eq in En. inversion En; subst. cbn.
+      destruct k; [cbn in Hk; lia|]. apply ltail_close.
+    + apply tail_generic; [exact M|intros ? ?; discriminate|exact En].
   - (* Bin *)
     destruct IHt1 as [IHa _]. destruct IHt2 as [IHb _].
     assert (M : main_P (Bin n p s t1 t2)).
@@ -590,8 +588,8 @@ Proof.
       unfold tk. simpl pr. rewrite !toks_app.
       destruct (toks_op_pieces n (if bare_right p s t2 then pr MIn t2 else wrap (pr MIn t2))) as [fl Hfl].
       rewrite Hfl. simpl app.
+      change (eff m (Bin n p s t1 t2)) with p. change (rlev m (Bin n p s t1 t2)) with (rightmax p s).
       rewrite <- (mk_bin_binop n p s t1 t2 E).
-      simpl eff. simpl rlev.
       apply reads_bin with (pa := if bare_left p s t1 then eff MIn t1 else 0)
                            (rla := if bare_left p s t1 then rlev MIn t1 else 0)
                            (pb := if bare_right p s t2 then eff MIn t2 else 0)
@@ -610,33 +608,26 @@ Proof.
         + pose proof (rlev_le_eff MIn t2). lia.
         + lia.
       - apply leftmax_le. }
-    split; [exact M|].
-    intros Hok rest k Hk. simpl in Hok. btrue. simpl lt_toks in *. simpl app.
-    destruct k; [lia|]. rewrite ltail_bar. rewrite cost_cons in Hk.
-    rewrite (reads_arg (tk MIn (Bin n p s t1 t2)) (Bin n p s t1 t2) (eff MIn (Bin n p s t1 t2)) (rlev MIn (Bin n p s t1 t2)) (TRBrack :: rest)); auto; try lia.
-    + pose proof (rlev_le_eff MIn (Bin n p s t1 t2)). lia.
-    + simpl. exact I.
+    split; [exact M|]. tail_gen M.
   - (* Un *)
     destruct IHt as [IHa _].
     assert (M : main_P (Un n p s t)).
     { intros m Hok. simpl in Hok.
       destruct (lookup n prefix_table) as [[p' s']|] eqn:E; [|discriminate].
-      btrue. subst p'. apply spec_eqb_eq in H10. subst s'.
-      unfold tk. simpl pr. unfold op_pieces. rewrite H5. unfold nm. rewrite H4.
+      repeat rewrite andb_true_iff in Hok.
+      destruct Hok as [[[[[[[[Hp Hs] Hn1] Hn2] Hn3] Hal] Hct] Hoka] Heff].
+      apply Nat.eqb_eq in Hp. subst p'. apply spec_eqb_eq in Hs. subst s'.
+      apply negb_true_iff in Hn1, Hn2, Hn3, Hal, Hct. apply Nat.leb_le in Heff.
+      unfold tk. simpl pr. unfold op_pieces. rewrite Hal. unfold nm. rewrite Hct.
       simpl toks. fold (tk MIn t).
+      change (eff m (Un n p s t)) with p. change (rlev m (Un n p s t)) with (opmax p s).
       replace (Un n p s t) with (mk_un n p s t).
-      - simpl eff. simpl rlev.
-        apply reads_prefix with (pa := eff MIn t) (rla := rlev MIn t); auto.
+      - apply reads_prefix with (pa := eff MIn t) (rla := rlev MIn t); auto.
         pose proof (rlev_le_eff MIn t). lia.
-      - unfold mk_un. rewrite H8, H7. simpl.
+      - unfold mk_un. rewrite Hn1, Hn2. simpl orb. cbv iota.
         destruct (String.eqb n "-"); [|reflexivity].
-        simpl in H6. destruct t; simpl in H6; try reflexivity; discriminate. }
-    split; [exact M|].
-    intros Hok rest k Hk. simpl in Hok. btrue. simpl lt_toks in *. simpl app.
-    destruct k; [lia|]. rewrite ltail_bar. rewrite cost_cons in Hk.
-    rewrite (reads_arg (tk MIn (Un n p s t)) (Un n p s t) (eff MIn (Un n p s t)) (rlev MIn (Un n p s t)) (TRBrack :: rest)); auto; try lia.
-    + pose proof (rlev_le_eff MIn (Un n p s t)). lia.
-    + simpl. exact I.
+        simpl in Hn3. destruct t; simpl in Hn3; try reflexivity; discriminate. }
+    split; [exact M|]. tail_gen M.
   - (* Neg *)
     destruct IHt as [IHa _].
     assert (M : main_P (Neg f t)).
@@ -674,11 +665,7 @@ Proof.
         change (Neg "not" t) with (mk_un "not" 900 FY t).
         apply reads_prefix with (p := 900) (s := FY) (pa := if is_and (core t) || is_or (core t) then 0 else eff MTop t)
                                 (rla := if is_and (core t) || is_or (core t) then 0 else rlev MTop t); auto. }
-    split; [exact M|].
-    intros Hok rest k Hk. simpl in Hok. btrue. simpl lt_toks in *. simpl app.
-    destruct k; [lia|]. rewrite ltail_bar. rewrite cost_cons in Hk.
-    rewrite (reads_arg (tk MIn (Neg f t)) (Neg f t) (eff MIn (Neg f t)) (rlev MIn (Neg f t)) (TRBrack :: rest)); auto; try lia.
-    + simpl. exact I.
+    split; [exact M|]. tail_gen M.
   - (* And *)
     destruct IHt1 as [IHa _]. destruct IHt2 as [IHb _].
     assert (Inner : ok MIn (And t1 t2) = true ->
@@ -705,8 +692,9 @@ Proof.
       - (* MTop *)
         simpl in Hok. btrue. unfold tk. simpl pr.
         rewrite !toks_app. simpl (toks sep_comma). simpl app.
+        simpl eff. simpl rlev.
         change (And t1 t2) with (mk_bin "," 1000 XFY t1 t2).
-        simpl eff. simpl rlev. change 1000 with (rightmax 1000 XFY) at 2.
+        change 1000 with (rightmax 1000 XFY) at 2.
         apply reads_bin with (pa := if is_or (core t1) then 0 else eff MTop t1)
                              (rla := if is_or (core t1) then 0 else rlev MTop t1)
                              (pb := if is_or (core t2) then 0 else eff MTop t2)
@@ -724,13 +712,7 @@ Proof.
       - (* MAndT *) unfold tk. simpl pr. simpl eff. simpl rlev. apply Inner. exact Hok.
       - (* MOrT *) unfold tk. simpl pr. rewrite toks_wrap. simpl eff. simpl rlev.
         eapply reads_wrap; [apply Inner; exact Hok|lia]. }
-    split; [exact M|].
-    intros Hok rest k Hk. simpl oktail in Hok. simpl is_nil in Hok. simpl orb in Hok. btrue.
-    simpl lt_toks in *. simpl app.
-    destruct k; [lia|]. rewrite ltail_bar. rewrite cost_cons in Hk.
-    rewrite (reads_arg (tk MIn (And t1 t2)) (And t1 t2) 0 0 (TRBrack :: rest)); auto; try lia.
-    + apply (M MIn); auto.
-    + simpl. exact I.
+    split; [exact M|]. tail_gen M.
   - (* Or *)
     destruct IHt1 as [IHa _]. destruct IHt2 as [IHb _].
     assert (Inner : ok MIn (Or t1 t2) = true ->
@@ -750,8 +732,9 @@ Proof.
       - (* MTop *)
         simpl in Hok. btrue. unfold tk. simpl pr.
         rewrite !toks_app. simpl (toks sep_semi). simpl app.
+        simpl eff. simpl rlev.
         change (Or t1 t2) with (mk_bin ";" 1100 XFY t1 t2).
-        simpl eff. simpl rlev. change 1100 with (rightmax 1100 XFY) at 2.
+        change 1100 with (rightmax 1100 XFY) at 2.
         apply reads_bin with (pa := eff MTop t1) (rla := rlev MTop t1)
                              (pb := eff MTop t2) (rlb := rlev MTop t2); simpl; try lia; try reflexivity.
         + apply IHa; auto.
@@ -760,9 +743,7 @@ Proof.
       - (* MAndT *) unfold tk. simpl pr. rewrite toks_wrap. simpl eff. simpl rlev.
         eapply reads_wrap; [apply Inner; exact Hok|lia].
       - unfold tk. simpl pr. simpl eff. simpl rlev. apply Inner. exact Hok. }
-    split; [exact M|].
-    intros Hok rest k Hk. simpl oktail in Hok. simpl is_nil in Hok. simpl orb in Hok. btrue.
-    simpl eff in H0. lia.
+    split; [exact M|]. tail_gen M.
   - (* Cons *)
     destruct IHt1 as [IHa _]. destruct IHt2 as [_ IHtl].
     assert (M : main_P (Cons t1 t2)).
@@ -774,12 +755,12 @@ Proof.
       destruct (tk MIn t1) as [|t0 r0] eqn:Et.
       - (* impossible: the reader cannot read the empty list of tokens as a term *)
         exfalso.
-        assert (X : parse 5 999 ([] ++ [TClose]) = Some (t1, eff MIn t1, [TClose])).
-        { rewrite <- Et. apply reads_arg with (rl := rlev MIn t1); try lia.
+        assert (X : parse (1 + cost (tk MIn t1)) 999 (tk MIn t1 ++ [TClose]) = Some (t1, eff MIn t1, [TClose])).
+        { apply reads_arg with (rl := rlev MIn t1); try lia.
           - apply IHa; auto.
           - pose proof (rlev_le_eff MIn t1). lia.
-          - simpl. exact I.
-          - rewrite Et. simpl. lia. }
+          - simpl. exact I. }
+        rewrite Et in X.
         simpl in X. discriminate X.
       - assert (Hnr : is_rbrack t0 = false).
         { destruct t0; try reflexivity. exfalso.
@@ -790,15 +771,14 @@ Proof.
             - simpl. exact I. }
           rewrite Et in X. rewrite cost_cons in X. simpl in X. discriminate X. }
         simpl app. rewrite primary_list by exact Hnr.
-        change (t0 :: r0 ++ lt_toks t2 ++ [TRBrack] ++ rest) with ((t0 :: r0) ++ lt_toks t2 ++ [TRBrack] ++ rest).
-        rewrite <- Et.
-        rewrite <- !app_assoc. simpl app.
+        replace (t0 :: (r0 ++ lt_toks t2 ++ [TRBrack]) ++ rest) with (tk MIn t1 ++ lt_toks t2 ++ TRBrack :: rest)
+          by (rewrite Et; simpl; rewrite <- !app_assoc; reflexivity).
+        rewrite <- Et in Hk.
         rewrite (reads_arg (tk MIn t1) t1 (eff MIn t1) (rlev MIn t1)); try lia.
         + rewrite IHtl; auto; try lia. apply Hinf. lia.
         + apply IHa; auto.
         + pose proof (rlev_le_eff MIn t1). lia.
-        + apply lt_toks_stop.
-        + rewrite Et in Hk. lia. }
+        + apply lt_toks_stop. }
     split; [exact M|].
     intros Hok rest k Hk. simpl oktail in Hok. btrue. simpl lt_toks in *.
     rewrite cost_cons, cost_app in Hk. simpl app.
@@ -822,9 +802,7 @@ Proof.
         - apply (IHu MIn); auto. }
       unfold tk. simpl eff. simpl rlev.
       destruct m; simpl pr; exact X. }
-    split; [exact M|].
-    intros Hok rest k Hk. simpl oktail in Hok. simpl is_nil in Hok. simpl orb in Hok. btrue.
-    simpl eff in H0. lia.
+    split; [exact M|]. tail_gen M.
 Qed.
 
 Lemma reads_ok m t : ok m t = true -> reads (tk m t) t (eff m t) (rlev m t).
@@ -910,61 +888,67 @@ Proof. unfold fuel_for, cost. lia. Qed.
 Theorem roundtrip_tokens : forall s, ok_stmt s = true -> read_tokens (print_tokens s) = Some s.
 Proof.
   intros s Hok. unfold read_tokens, print_tokens.
-  destruct s as [t|h b|b|hs b]; simpl in Hok; btrue.
+  destruct s as [t|h b|b|hs b]; simpl in Hok; repeat rewrite andb_true_iff in Hok.
   - (* fact *)
-    simpl pr_stmt. fold (tk MTop t).
-    pose proof (reads_ok _ _ H1) as R.
+    destruct Hok as [[Hokt Heff] Hneck]. apply Nat.leb_le in Heff. apply negb_true_iff in Hneck.
+    simpl pr_stmt. fold (tk MTop t) in *.
+    pose proof (reads_ok _ _ Hokt) as R.
     assert (X := reads_full _ _ _ _ (fuel_for (tk MTop t)) R ltac:(lia) (fuel_enough3 _)).
     unfold parse_stmt. destruct (tk MTop t) as [|t0 r0] eqn:E.
     + rewrite parse_nil in X. discriminate.
-    + simpl in H. rewrite H. rewrite X. reflexivity.
+    + simpl in Hneck. rewrite Hneck. rewrite X. reflexivity.
   - (* clause *)
-    simpl pr_stmt. rewrite H3. unfold head_ok in H4. btrue.
-    rewrite !toks_app. simpl (toks sep_clause). fold (tk MTop h). fold (tk MTop b). simpl app.
-    pose proof (reads_ok _ _ H4) as Rh. pose proof (reads_ok _ _ H2) as Rb.
+    destruct Hok as [[[[Hdir Hh] Hokb] Heffb] Hneck].
+    apply negb_true_iff in Hdir, Hneck. apply Nat.leb_le in Heffb.
+    unfold head_ok in Hh. repeat rewrite andb_true_iff in Hh.
+    destruct Hh as [[[Hokh Hnor] Heffh] _]. apply Nat.leb_le in Heffh.
+    simpl pr_stmt. rewrite Hdir.
+    rewrite !toks_app. simpl (toks sep_clause). fold (tk MTop h) in *. fold (tk MTop b). simpl app.
+    pose proof (reads_ok _ _ Hokh) as Rh. pose proof (reads_ok _ _ Hokb) as Rb.
+    remember (tk MTop b) as tb eqn:Etb.
     set (nk := TName ":-" false).
-    assert (Xh := reads_before_neck _ _ _ _ nk (tk MTop b) (fuel_for (tk MTop h ++ nk :: tk MTop b)) Rh ltac:(lia) eq_refl).
-    assert (Xb := reads_full _ _ _ _ (fuel_for (tk MTop h ++ nk :: tk MTop b)) Rb ltac:(lia) (fuel_enough2 _ _ _)).
+    assert (Xh := reads_before_neck _ _ _ _ nk tb (fuel_for (tk MTop h ++ nk :: tb)) Rh ltac:(lia) eq_refl).
+    assert (Xb := reads_full _ _ _ _ (fuel_for (tk MTop h ++ nk :: tb)) Rb ltac:(lia) (fuel_enough2 _ _ _)).
     unfold parse_stmt. destruct (tk MTop h) as [|t0 r0] eqn:E.
-    + exfalso. simpl in Xh.
-      assert (Y : parse (fuel_for (nk :: tk MTop b)) 1199 ([] ++ nk :: tk MTop b) = Some (h, eff MTop h, nk :: tk MTop b)).
-      { apply Xh. unfold fuel_for, cost. simpl. lia. }
-      (* with an empty head the reader sees the atom ':-' first *)
-      clear Xh. rewrite <- E in Y.
+    + exfalso.
       assert (Z := Rh 1199 [TClose] 1 (h, eff MTop h, [TClose]) ltac:(lia) I ltac:(lia)
                       (fun k' Hk' => infix_stop 1199 [TClose] 1199 h (eff MTop h) k' I ltac:(lia) Hk') 5).
-      rewrite E in Z. simpl in Z. specialize (Z ltac:(lia)). discriminate Z.
-    + simpl in H. simpl app. rewrite H.
-      change (t0 :: r0 ++ nk :: tk MTop b) with ((t0 :: r0) ++ nk :: tk MTop b).
-      rewrite Xh by (unfold fuel_for, cost; rewrite app_length; simpl; lia).
+      assert (Hc : 1 + cost [] <= 5) by (unfold cost; simpl; lia).
+      specialize (Z Hc). simpl in Z. discriminate Z.
+    + simpl in Hneck. simpl app in *. cbv beta iota. rewrite Hneck.
+      rewrite Xh by (unfold fuel_for, cost; simpl length; rewrite app_length; simpl length; lia).
       simpl is_neck. cbv iota. rewrite Xb.
-      unfold mk_clause. unfold not_or in H5.
+      unfold mk_clause. unfold not_or in Hnor.
       destruct h; simpl in *; try reflexivity; discriminate.
   - (* directive *)
+    destruct Hok as [Hokb Heffb]. apply Nat.leb_le in Heffb.
     simpl pr_stmt. simpl toks. fold (tk MTop b).
-    pose proof (reads_ok _ _ H) as Rb.
+    pose proof (reads_ok _ _ Hokb) as Rb.
     unfold parse_stmt. simpl is_neck. cbv iota.
     rewrite (reads_full _ _ _ _ _ Rb); try lia.
     + reflexivity.
     + unfold fuel_for, cost. simpl. lia.
   - (* AD *)
-    simpl pr_stmt. destruct hs as [|h r]; [simpl in H3; discriminate|].
-    destruct r as [|x r]; [simpl in H3; discriminate|].
-    destruct (reads_chain (x :: r) h H4) as (pt & rl & Hpt & Hrl & Rh).
-    pose proof (reads_ok _ _ H2) as Rb.
+    destruct Hok as [[[[Hlen Hhs] Hokb] Heffb] Hneck].
+    apply negb_true_iff in Hneck. apply Nat.leb_le in Heffb.
+    simpl pr_stmt. destruct hs as [|h r]; [simpl in Hlen; discriminate|].
+    destruct r as [|x r]; [simpl in Hlen; discriminate|].
+    destruct (reads_chain (x :: r) h Hhs) as (pt & rl & Hpt & Hrl & Rh).
+    pose proof (reads_ok _ _ Hokb) as Rb.
     rewrite !toks_app. simpl (toks sep_clause). fold (tk MTop b). simpl app.
+    remember (tk MTop b) as tb eqn:Etb.
     set (nk := TName ":-" false).
-    set (hd := toks (join_heads (h :: x :: r))) in *.
-    assert (Xh := reads_before_neck _ _ _ _ nk (tk MTop b) (fuel_for (hd ++ nk :: tk MTop b)) Rh ltac:(lia) eq_refl).
-    assert (Xb := reads_full _ _ _ _ (fuel_for (hd ++ nk :: tk MTop b)) Rb ltac:(lia) (fuel_enough2 _ _ _)).
-    unfold parse_stmt. destruct hd as [|t0 r0] eqn:E.
+    remember (toks (join_heads (h :: x :: r))) as hd eqn:Ehd.
+    assert (Xh := reads_before_neck _ _ _ _ nk tb (fuel_for (hd ++ nk :: tb)) Rh ltac:(lia) eq_refl).
+    assert (Xb := reads_full _ _ _ _ (fuel_for (hd ++ nk :: tb)) Rb ltac:(lia) (fuel_enough2 _ _ _)).
+    unfold parse_stmt. destruct hd as [|t0 r0].
     + exfalso.
       assert (Z := Rh 1199 [TClose] 1 (or_chain h (x :: r), pt, [TClose]) ltac:(lia) I ltac:(lia)
                       (fun k' Hk' => infix_stop 1199 [TClose] 1199 _ pt k' I ltac:(lia) Hk') 5).
-      simpl in Z. specialize (Z ltac:(lia)). discriminate Z.
-    + simpl in H. simpl app. rewrite H.
-      change (t0 :: r0 ++ nk :: tk MTop b) with ((t0 :: r0) ++ nk :: tk MTop b).
-      rewrite Xh by (unfold fuel_for, cost; rewrite app_length; simpl; lia).
+      assert (Hc : 1 + cost [] <= 5) by (unfold cost; simpl; lia).
+      specialize (Z Hc). simpl in Z. discriminate Z.
+    + simpl in Hneck. simpl app in *. cbv beta iota. rewrite Hneck.
+      rewrite Xh by (unfold fuel_for, cost; simpl length; rewrite app_length; simpl length; lia).
       simpl is_neck. cbv iota. rewrite Xb.
-      unfold mk_clause. rewrite (heads_of_chain (x :: r) h H4). reflexivity.
+      unfold mk_clause. rewrite (heads_of_chain (x :: r) h Hhs). reflexivity.
 Qed.
